@@ -47,7 +47,7 @@ PROFILES = {
                     ("2 nodes, 3 indexes: head truncation + blocked ReportFn", C(MaxIdx=3, MaxTH=1, MaxBlock=1), True)],
             sim=C(N=3, MaxIdx=6, MaxCp=3, MaxTerm=3, MaxTT=2, MaxTH=1, MaxSnap=1, MaxRestart=1, MaxBlock=1, MaxFail=1,
                   MaxSteps=16),
-            nsim=50, emit_every=12, ncex=30, nint=40, wal_share=8, tlc_timeout=150),
+            nsim=50, emit_every=12, ncex=30, nint=40, wal_share=8, tlc_timeout=45),
         "thorough": dict(
             design=[("2 nodes, 3 indexes: leader change + conflicting suffix + head truncation + snapshot install + blocked ReportFn",
                      C(MaxIdx=3, MaxTerm=2, MaxTT=1, MaxTH=1, MaxBlock=1, MaxSnap=1), True),
@@ -59,7 +59,7 @@ PROFILES = {
                      C(MaxIdx=5, MaxCp=3, MaxTerm=2, MaxTT=1), True)],
             sim=C(N=3, MaxIdx=6, MaxCp=3, MaxTerm=3, MaxTT=3, MaxTH=2, MaxSnap=1, MaxRestart=1, MaxBlock=2, MaxFail=1,
                   MaxSteps=20),
-            nsim=1000, emit_every=60, ncex=300, nint=500, wal_share=6, tlc_timeout=130, heap="8g"),
+            nsim=700, emit_every=60, ncex=300, nint=500, wal_share=6, tlc_timeout=100, heap="8g"),
     },
     "C17": {
         "quick": dict(
@@ -67,14 +67,14 @@ PROFILES = {
                      C(MaxIdx=3, MaxRestart=1, MaxCorrupt=1, CfgAt1=False, **F5), False),
                     ("2 nodes, 2 indexes, bootstrap entries, 1 corruption", C(MaxIdx=2, MaxCorrupt=1, **F5), False)],
             sim=C(N=3, MaxIdx=6, MaxCp=3, MaxTerm=2, MaxRestart=1, MaxCorrupt=2, MaxTH=1, MaxSteps=14, **F5),
-            nsim=50, emit_every=10, ncex=30, nint=120, wal_share=8, tlc_timeout=150),
+            nsim=50, emit_every=10, ncex=30, nint=120, wal_share=8, tlc_timeout=45),
         "thorough": dict(
             design=[("2 nodes, 4 indexes, leader change, restart, 1 corruption (any field, in flight / at rest)",
                      C(MaxIdx=4, MaxTerm=2, MaxRestart=1, MaxCorrupt=1, **F5), False),
                     ("3 nodes, 4 indexes, 1 corruption", C(N=3, MaxIdx=4, MaxCorrupt=1, MaxBatch=1, CfgAt1=False, **F5), False),
                     ("2 nodes, 5 indexes, 3 checkpoints, 1 corruption", C(MaxIdx=5, MaxCp=3, MaxCorrupt=1, CfgAt1=False, **F5), False)],
             sim=C(N=3, MaxIdx=6, MaxCp=3, MaxTerm=2, MaxRestart=1, MaxCorrupt=2, MaxTH=1, MaxSteps=18, **F5),
-            nsim=1000, emit_every=120, ncex=300, nint=1000, wal_share=6, tlc_timeout=220, heap="8g"),
+            nsim=700, emit_every=120, ncex=300, nint=800, wal_share=6, tlc_timeout=170, heap="8g"),
     },
     "C18": {
         "quick": dict(
@@ -82,7 +82,7 @@ PROFILES = {
                      C(N=1, MaxIdx=5, MaxCp=4, MaxBlock=2, MaxForeign=1, MaxFail=1, Eager=False), False)],
             sim=C(N=2, MaxIdx=8, MaxCp=6, MaxTerm=2, MaxTT=1, MaxTH=1, MaxRestart=1, MaxBlock=3, MaxForeign=1, MaxFail=1,
                   MaxSteps=20),
-            nsim=50, emit_every=10, ncex=30, nint=80, wal_share=8, tlc_timeout=150),
+            nsim=50, emit_every=10, ncex=30, nint=80, wal_share=8, tlc_timeout=45),
         "thorough": dict(
             design=[("1 node, 5 indexes, 4 checkpoints: every goroutine schedule, head truncation, restart, foreign checkpoint, failing store",
                      C(N=1, MaxIdx=5, MaxCp=4, MaxBlock=2, MaxForeign=1, MaxFail=1, MaxTH=1, MaxRestart=1, Eager=False), False),
@@ -92,7 +92,7 @@ PROFILES = {
                      C(N=2, MaxIdx=4, MaxCp=4, MaxBlock=2, MaxForeign=1, MaxBatch=1, CfgAt1=False), False)],
             sim=C(N=3, MaxIdx=9, MaxCp=7, MaxTerm=2, MaxTT=1, MaxTH=2, MaxRestart=1, MaxBlock=4, MaxForeign=2, MaxFail=1,
                   MaxSteps=26),
-            nsim=1000, emit_every=120, ncex=300, nint=600, wal_share=6, tlc_timeout=220, heap="8g"),
+            nsim=700, emit_every=120, ncex=300, nint=600, wal_share=6, tlc_timeout=170, heap="8g"),
     },
 }
 
